@@ -585,6 +585,11 @@ ssize_t getrandom(void *buf, size_t len, unsigned int flags) {
     }
     return fill_random(buf, len);
 }
+pid_t gettid(void) {
+    if (active) return 4242;
+    return (pid_t)RAW3(SYS_gettid, 0, 0, 0);
+}
+
 int getentropy(void *buf, size_t len) {
     if (!active) {
         long r = RAW3(SYS_getrandom, buf, len, 0);
@@ -605,6 +610,7 @@ long syscall(long n, ...) {
     long d = va_arg(ap, long), e = va_arg(ap, long), f = va_arg(ap, long);
     va_end(ap);
     if (active && n == SYS_getrandom) return fill_random((void *)a, (size_t)b);
+    if (active && n == SYS_gettid) return 4242; /* the thread id appears in panic messages */
     long r = raw6(n, a, b, c, d, e, f);
     if (r < 0 && r > -4096) {
         errno = (int)-r;
